@@ -404,12 +404,7 @@ func (h *vC14H) doWrite(i int, st vC14Step) (bool, string) {
 	if p != 0 && h.real[p] == "" {
 		return false, "noparent" // the parent named by the behaviour was refused by the real gateway: nothing to write on
 	}
-	if p == 0 && st.K == "put" { // no _rev: the gateway puts the revision on top of the current (tombstoned) one
-		if doc, err := h.col.GetDocument(h.ctx, docid, DocUnmarshalSync); err == nil && doc != nil {
-			p = h.modelRev(d, doc.GetRevTreeID())
-		}
-	}
-	gen := h.gen[p] + 1
+	gen := h.gen[p] + 1 // (a Put without _rev may land on a tombstone: corrected from the stored revision below)
 	body := Body{"k": fmt.Sprintf("b%d-s%d-%s", h.beh, i, st.K)}
 	atts, want := h.attachmentsFor(st, vInt(st.P), gen)
 	if len(atts) > 0 {
@@ -444,6 +439,22 @@ func (h *vC14H) doWrite(i int, st vC14Step) (bool, string) {
 	}
 	h.real[r] = rev
 	h.model[fmt.Sprintf("%d|%s", d, rev)] = r
+	// generation and parent as the gateway stored them (a retried Put without _rev may have landed on a tombstone that did not exist
+	// when the call started): later steps build revision ids and histories from these
+	if g, _ := ParseRevID(h.ctx, rev); g > 0 && g != gen {
+		for n, w := range want { // attachments added by this write carry its real generation as revpos
+			if v, has := st.S[n]; has && vInt(v) > 0 {
+				w.pos = g
+				want[n] = w
+			}
+		}
+		gen = g
+	}
+	if doc, derr := h.col.GetDocument(h.ctx, docid, DocUnmarshalSync); derr == nil && doc != nil {
+		if info, ok := doc.History[rev]; ok && info != nil {
+			p = h.modelRev(d, info.Parent)
+		}
+	}
 	h.par[r], h.gen[r], h.docOf[r], h.want[r] = p, gen, d, want
 	return true, ""
 }
